@@ -165,7 +165,21 @@ func (a *AvailableCommands) Decode(c *proto.PacketContext, rd io.Reader) error {
 	}
 
 	var ok bool
-	queue := append([]*WireNode{}, wireNodes...) // copy
+	// First pass in redirect order: a node can only be created once the node it redirects to
+	// exists. In index order a chain of n redirects needs n rounds over n nodes (tens of seconds
+	// of CPU for a frame-sized packet); in redirect order every node off a redirect cycle is
+	// created here and the rounds below only have to link children.
+	ordered := redirectOrder(wireNodes)
+	queue := ordered[:0] // filtered in place
+	for _, node := range ordered {
+		ok, err = node.toNodes(wireNodes)
+		if err != nil {
+			return err
+		}
+		if !ok {
+			queue = append(queue, node)
+		}
+	}
 	// Iterate over the deserialized nodes and attempt to form a graph.
 	// We also resolve any cycles that exist.
 	for len(queue) != 0 {
@@ -212,6 +226,25 @@ func (a *AvailableCommands) Decode(c *proto.PacketContext, rd io.Reader) error {
 		return fmt.Errorf("built node type is not *RootCommandNode (%T)", built)
 	}
 	return nil
+}
+
+// redirectOrder returns the nodes ordered so that a node follows the node it redirects to
+// (as far as the redirects do not form a cycle).
+func redirectOrder(wireNodes []*WireNode) []*WireNode {
+	order := make([]*WireNode, 0, len(wireNodes))
+	state := make([]uint8, len(wireNodes)) // 0 = unvisited, 1 = visited
+	var chain []int
+	for i := range wireNodes {
+		chain = chain[:0]
+		for cur := i; cur >= 0 && cur < len(wireNodes) && state[cur] == 0; cur = wireNodes[cur].RedirectTo {
+			state[cur] = 1
+			chain = append(chain, cur)
+		}
+		for j := len(chain) - 1; j >= 0; j-- {
+			order = append(order, wireNodes[chain[j]])
+		}
+	}
+	return order
 }
 
 // remove element from slice: order is not important
